@@ -5,7 +5,7 @@ From DD Require Import Model.Circuit Model.Query Model.TwiseCfg Model.TwiseMerge
   Spec.TwiseOk Proofs.PassLemmas Proofs.Enum Proofs.Semantics Proofs.CountsA Proofs.QueryDefs Proofs.C03Proof
   Proofs.TwiseOkProof Proofs.C09Pipeline
   Proofs.TwiseBase Proofs.TwiseSem Proofs.TwiseCfgProof Proofs.TwiseInv Proofs.TwiseAnd Proofs.TwiseOr
-  Proofs.TwiseNode.
+  Proofs.TwiseNode Proofs.TwisePass.
 Import ListNotations.
 Open Scope Z_scope.
 
@@ -51,60 +51,7 @@ Notation CovAll := (CovAll C).
 Notation NodeInv := (NodeInv C n t).
 Notation LitsC := (LitsC C).
 
-(* ---------- the pass ---------- *)
-Definition PassInv (i : nat) (ps : list (option sres)) : Prop :=
-  length ps = length C /\
-  forall j, (j < i)%nat ->
-    match nth j ps None with
-    | Some r => NodeInv j r
-    | None => (exists q, (q < i)%nat /\ In j (children (nth q C FalseN))) /\
-              (forall q, In q (nth j (parents C) []) -> (q < i)%nat)
-    end.
-
-Lemma lookup_ok i ps cs : (i < length C)%nat -> children (nth i C FalseN) = cs -> PassInv i ps ->
-  forall cs', incl cs' cs -> exists rs, lookup ps cs' = Some rs /\ Forall2 NodeInv cs' rs.
-Proof.
-  intros Hi Hcs [Hlen Hinv]. induction cs' as [|c cs' IH]; intros Hinc.
-  - exists []. split; [reflexivity|constructor].
-  - destruct IH as [rs [Hl HF]]; [intros x Hx; apply Hinc; now right|].
-    assert (Hc : In c cs) by (apply Hinc; now left).
-    assert (Hci : (c < i)%nat) by (apply (child_lt C n HQ i c Hi); now rewrite Hcs).
-    cbn [lookup fold_right]. fold (lookup ps cs'). rewrite Hl.
-    specialize (Hinv c Hci). destruct (nth c ps None) as [r|] eqn:En.
-    + exists (r :: rs). split; [reflexivity|now constructor].
-    + exfalso. destruct Hinv as [_ Hpar]. specialize (Hpar i).
-      assert (i < i)%nat; [|lia]. apply Hpar. apply parents_spec; [lia|]. split; [exact Hi|now rewrite Hcs].
-Qed.
-
-Lemma remove_ok i : forall cs ps, NoDup cs -> (forall c, In c cs -> (c < length ps)%nat) ->
-  (forall c, In c cs -> nth c ps None <> None) ->
-  exists ps', remove_unneeded d i cs ps = Some ps' /\ length ps' = length ps /\
-  forall j, nth j ps' None = nth j ps None \/
-            (nth j ps' None = None /\ In j cs /\ forall q, In q (nth j (parents C) []) -> (q <= i)%nat).
-Proof.
-  unfold remove_unneeded. induction cs as [|c cs IH]; intros ps Hnd Hlt Hsome; cbn [fold_left].
-  - exists ps. split; [reflexivity|]. split; [reflexivity|]. intros j. now left.
-  - inversion Hnd as [|? ? Hnotin Hnd']; subst.
-    change (pars d) with (parents C).
-    destruct (forallb (fun p => (p <=? i)%nat) (nth c (parents C) [])) eqn:Eall.
-    + destruct (nth c ps None) as [r|] eqn:En; [|exfalso; apply (Hsome c (or_introl eq_refl)); exact En].
-      destruct (IH (upd c None ps) Hnd') as [ps' [H1 [H2 H3]]].
-      * intros x Hx. rewrite upd_length. apply Hlt. now right.
-      * intros x Hx. rewrite nth_upd_neq by (intros ->; contradiction). apply Hsome. now right.
-      * exists ps'. split; [exact H1|]. split; [now rewrite H2, upd_length|].
-        intros j. destruct (H3 j) as [E|[E1 [E2 E3]]].
-        -- destruct (Nat.eq_dec c j) as [->|Hne].
-           ++ right. split; [rewrite E; apply nth_upd_eq; apply Hlt; now left|]. split; [now left|].
-              intros q Hq. rewrite forallb_forall in Eall. apply Nat.leb_le. now apply Eall.
-           ++ left. rewrite E. now apply nth_upd_neq.
-        -- right. split; [exact E1|]. split; [now right|exact E3].
-    + destruct (IH ps Hnd') as [ps' [H1 [H2 H3]]].
-      * intros x Hx. apply Hlt. now right.
-      * intros x Hx. apply Hsome. now right.
-      * exists ps'. split; [exact H1|]. split; [exact H2|].
-        intros j. destruct (H3 j) as [E|[E1 [E2 E3]]]; [now left|right]. split; [exact E1|]. split; [now right|exact E3].
-Qed.
-
+(* ---------- the pass (Proofs/TwisePass.v, instantiated with the plain mergers) ---------- *)
 Lemma true_node i : (i < length C)%nat -> nth i C FalseN = TrueN -> NodeInv i Empty.
 Proof.
   intros Hi E. cbn [TwiseNode.NodeInv]. split.
@@ -115,70 +62,22 @@ Qed.
 Lemma false_node i : (i < length C)%nat -> nth i C FalseN = FalseN -> NodeInv i Void.
 Proof. intros Hi E. cbn [TwiseNode.NodeInv]. rewrite cnt_cA. now apply (cA_false C n HQ). Qed.
 
-Lemma step_ok i ps : (i < length C)%nat -> PassInv i ps ->
-  exists ps', sampler_step d t ord_int ord_sort (Some ps) i = Some ps' /\ PassInv (S i) ps'.
-Proof.
-  intros Hi Hinv. pose proof Hinv as [Hlen Hj].
-  (* what is needed of the (result, remaining samples) pair *)
-  assert (Hfin : forall res ps1, NodeInv i res -> length ps1 = length ps ->
-            (forall j, nth j ps1 None = nth j ps None \/
-               (nth j ps1 None = None /\ In j (children (nth i C FalseN)) /\
-                forall q, In q (nth j (parents C) []) -> (q <= i)%nat)) ->
-            PassInv (S i) (upd i (Some res) ps1)).
-  { intros res ps1 Hres Hl1 Hrel. split; [now rewrite upd_length, Hl1|].
-    intros j Hjs. destruct (Nat.eq_dec i j) as [<-|Hne].
-    - rewrite nth_upd_eq by lia. exact Hres.
-    - rewrite nth_upd_neq by exact Hne. assert (Hji : (j < i)%nat) by lia. specialize (Hj j Hji).
-      destruct (Hrel j) as [E|[E1 [E2 E3]]].
-      + rewrite E. destruct (nth j ps None) as [r|]; [exact Hj|].
-        destruct Hj as [[q [Hq1 Hq2]] Hpar]. split; [exists q; split; [lia|exact Hq2]|].
-        intros q' Hq'. specialize (Hpar q' Hq'). lia.
-      + rewrite E1. split; [exists i; split; [lia|exact E2]|]. intros q Hq. specialize (E3 q Hq). lia. }
-  assert (Hsame : forall j : nat, nth j ps None = nth j ps None \/
-               (nth j ps None = None /\ In j (children (nth i C FalseN)) /\
-                forall q, In q (nth j (parents C) []) -> (q <= i)%nat)) by (intros j; now left).
-  unfold sampler_step, partial_sample. change (circ d) with C. change (nv d) with n.
-  destruct (nth i C FalseN) as [l|cs|cs| |] eqn:E.
-  - eexists. split; [reflexivity|]. apply Hfin; [now apply (lit_node C n t HQ)|reflexivity|exact Hsame].
-  - destruct (lookup_ok i ps cs Hi ltac:(now rewrite E) Hinv cs (incl_refl _)) as [rs [Hl HF]]. rewrite Hl.
-    assert (Hnd : NoDup cs) by (pose proof (children_nodup C Hdup i Hi) as H; now rewrite E in H).
-    destruct (remove_ok i cs ps Hnd) as [ps1 [H1 [H2 H3]]].
-    + intros c Hc. rewrite Hlen. assert (c < i)%nat by (apply (child_lt C n HQ i c Hi); now rewrite E). lia.
-    + intros c Hc Habs.
-      assert (Hci : (c < i)%nat) by (apply (child_lt C n HQ i c Hi); now rewrite E).
-      specialize (Hj c Hci). rewrite Habs in Hj. destruct Hj as [_ Hpar].
-      assert (i < i)%nat; [|lia]. apply Hpar. apply parents_spec; [lia|]. split; [exact Hi|now rewrite E].
-    + rewrite H1. cbn [option_map]. eexists. split; [reflexivity|].
-      apply Hfin; [|exact H2|exact H3].
-      exact (and_node C n t HQ Hdup ord_int ord_sort Hord_int Hord_sort i cs rs Hi E HF).
-  - destruct (lookup_ok i ps cs Hi ltac:(now rewrite E) Hinv cs (incl_refl _)) as [rs [Hl HF]]. rewrite Hl.
-    assert (Hnd : NoDup cs) by (pose proof (children_nodup C Hdup i Hi) as H; now rewrite E in H).
-    destruct (remove_ok i cs ps Hnd) as [ps1 [H1 [H2 H3]]].
-    + intros c Hc. rewrite Hlen. assert (c < i)%nat by (apply (child_lt C n HQ i c Hi); now rewrite E). lia.
-    + intros c Hc Habs.
-      assert (Hci : (c < i)%nat) by (apply (child_lt C n HQ i c Hi); now rewrite E).
-      specialize (Hj c Hci). rewrite Habs in Hj. destruct Hj as [_ Hpar].
-      assert (i < i)%nat; [|lia]. apply Hpar. apply parents_spec; [lia|]. split; [exact Hi|now rewrite E].
-    + rewrite H1. cbn [option_map]. eexists. split; [reflexivity|].
-      apply Hfin; [|exact H2|exact H3].
-      exact (or_node C n t HQ i cs rs Hi E HF).
-  - eexists. split; [reflexivity|]. apply Hfin; [now apply true_node|reflexivity|exact Hsame].
-  - eexists. split; [reflexivity|]. apply Hfin; [now apply false_node|reflexivity|exact Hsame].
-Qed.
+Definition andres_plain (i : nat) (rs : list sres) : sres :=
+  if existsb is_void rs then Void else sres_of (and_merge_all d n t ord_int ord_sort i (samples_of rs)).
+Definition orres_plain (i : nat) (rs : list sres) : sres :=
+  if forallb is_void rs then Void else sres_of (or_merge_all t (samples_of rs)).
 
-Lemma pass_ok : forall m k ps, (k + m = length C)%nat -> PassInv k ps ->
-  exists ps', fold_left (sampler_step d t ord_int ord_sort) (seq k m) (Some ps) = Some ps' /\
-              PassInv (length C) ps'.
+Lemma plain_root : exists ps res, partial_samples d t ord_int ord_sort = Some ps /\
+  nth (root C) ps None = Some res /\ NodeInv (root C) res.
 Proof.
-  induction m as [|m IH]; intros k ps Hkm Hinv; cbn [seq fold_left].
-  - exists ps. split; [reflexivity|]. now replace (length C) with k by lia.
-  - destruct (step_ok k ps ltac:(lia) Hinv) as [ps1 [H1 H2]]. rewrite H1. apply IH; [lia|exact H2].
-Qed.
-
-Lemma partial_samples_ok : exists ps, partial_samples d t ord_int ord_sort = Some ps /\ PassInv (length C) ps.
-Proof.
-  unfold partial_samples. change (circ d) with C. apply pass_ok; [lia|].
-  split; [apply map_length|]. intros j Hj. lia.
+  apply (pass_root C n HQ Hdup NodeInv (partial_sample d t ord_int ord_sort) andres_plain orres_plain).
+  - intros i ps. unfold partial_sample. change (circ d) with C. change (nv d) with n.
+    destruct (nth i C FalseN); reflexivity.
+  - intros i l Hi E. now apply (lit_node C n t HQ).
+  - intros i cs rs Hi E HF. exact (and_node C n t HQ Hdup ord_int ord_sort Hord_int Hord_sort i cs rs Hi E HF).
+  - intros i cs rs Hi E HF. exact (or_node C n t HQ i cs rs Hi E HF).
+  - exact true_node.
+  - exact false_node.
 Qed.
 
 (* ---------- the root ---------- *)
@@ -196,14 +95,11 @@ Proof. unfold cnt, r. now rewrite <- root_count_nth. Qed.
 Lemma root_sample : exists ps S, partial_samples d t ord_int ord_sort = Some ps /\
   nth r ps None = Some (WithSample S) /\ NodeInv r (WithSample S).
 Proof.
-  destruct partial_samples_ok as [ps [Hps [Hlen Hinv]]]. specialize (Hinv r Hr).
-  destruct (nth r ps None) as [res|] eqn:E.
-  - destruct res as [| |S]; cbn [TwiseNode.NodeInv] in Hinv.
-    + pose proof Hrpos. lia.
-    + exfalso. destruct Hinv as [_ Hnov]. apply (Hnov 1). apply (root_vars C n HQ). lia.
-    + exists ps, S. auto.
-  - exfalso. destruct Hinv as [[q [Hq Hin]] _].
-    pose proof (child_lt C n HQ q r Hq Hin). unfold r, root in *. lia.
+  destruct plain_root as [ps [res [Hps [E Hinv]]]]. fold r in E, Hinv.
+  destruct res as [| |S]; cbn [TwiseNode.NodeInv] in Hinv.
+  - pose proof Hrpos. lia.
+  - exfalso. destruct Hinv as [_ Hnov]. apply (Hnov 1). apply (root_vars C n HQ). lia.
+  - exists ps, S. auto.
 Qed.
 
 Notation W := (V r).
